@@ -27,7 +27,7 @@ FEATURES = {
     "gap": ["bare", "semi", "hash", "comment", "hasheq"],   # what follows the '=' of an emptied parameter
     "delim": [False, True],                     # ';' after statements that have a value
     "nl": ["\n", "\r\n"],
-    "between": ["none", "blank", "comment", "hashline", "comment2", "hashline2"],    # lines between statements
+    "between": ["none", "blank", "comment", "hashline", "comment2", "hashline2", "comment3"],    # lines between statements
     "names": ["plain", "pvlish"],               # parameter names that are not ODL identifiers: ^a, ns:b, c-1, d.x
     "end": [True, False],                       # END statement present
     "pack": [False, True],                      # two statements per physical line
@@ -170,6 +170,8 @@ def render(doc, empty, lay):
                 sep += "# note = 1" + nl
             elif lay["between"] == "comment2":
                 sep += "/* ===== a = 1; b = 2 ===== */" + nl
+            elif lay["between"] == "comment3":      # a comment over two lines, '=' on the second
+                sep += "/* was:" + nl + "   a = 1 */" + nl
             elif lay["between"] == "hashline2":
                 sep += "# was: a = 1, b = 2" + nl
             if last and not lay["end"] and "#" not in st:
